@@ -311,9 +311,10 @@ func init() {
 			cctx, cancel := context.WithTimeout(context.Background(), 120*time.Second)
 			cmd := exec.CommandContext(cctx, os.Args[0], "-prop", "C14", "-witness", "cfshared")
 			out, _ := cmd.CombinedOutput()
+			timedOut := cctx.Err() == context.DeadlineExceeded
 			cancel()
 			res := strings.TrimSpace(string(out))
-			if cctx.Err() != nil {
+			if timedOut {
 				res = "the replays did not finish within 120s: deadlock"
 			}
 			if i := strings.LastIndex(res, "\n"); i >= 0 {
